@@ -197,9 +197,10 @@ static void drainAndJoin() {
   }
   uint32 code = 12345;
   bool viaKill = simdrv::knob(*C.spec, "kill_instead_of_join", 0) != 0 && !C.childDone;
-  if (viaKill) { if (!C.proc->kill()) fail("C20/kill_failed", "kill() failed"); probe("killed"); }
+  /* a join()/kill() that failed because its wait was interrupted is simply repeated, as a caller handling signals would: the child must still be there */
+  if (viaKill) { for (int tries = 0; !C.proc->kill(); ++tries) { if (errno == EINTR && tries < 100) { probe("kill_interrupted_retry"); continue; } fail("C20/kill_failed", "kill() failed (errno %d%s)", errno, tries ? ", after an interrupted attempt" : ""); } probe("killed"); }
   else {
-    if (!C.proc->join(code)) fail("C20/join_failed", "join() failed");
+    for (int tries = 0; !C.proc->join(code); ++tries) { if (errno == EINTR && tries < 100) { probe("join_interrupted_retry"); continue; } fail(tries ? "C20/join_lost_child_after_interrupt" : "C20/join_failed", "join() failed (errno %d%s)", errno, tries ? ": the attempt before it was interrupted while the child was still running, and the child can no longer be joined" : ""); }
     simproc::Child* c = simproc::findChild(C.pid);
     int expCode = c && c->execed ? (int)(simdrv::knob(*C.spec, "exit_code", 0) & 0xff) : 1;
     if ((int)code != expCode) fail("C20/exit_code", "join() returned exit code %u, the child exited with %d", code, expCode);
@@ -213,7 +214,7 @@ static void drainAndJoin() {
     while (o2) { uint st = o2; ssize_t r = C.proc2->read(buf, sizeof buf, st); if (r < 0) fail("C20/read_failed", "read on the second process failed although its streams are open (streams %u)", o2);
       if (r == 0) { o2 &= ~st; C.proc2->close(st); continue; }
       NoPreempt np; uint64_t& got = st == Process::stdoutStream ? C.p2Out : C.p2Err; for (ssize_t q = 0; q < r; ++q) if (buf[q] != codeByte(st == Process::stdoutStream ? 11 : 12, got + q)) fail("C20/output_bytes_differ", "second process: wrong byte read"); got += r; }
-    uint32 code2 = 99; if (!C.proc2->join(code2)) fail("C20/join_failed", "join() of the second process failed");
+    uint32 code2 = 99; for (int tries = 0; !C.proc2->join(code2); ++tries) { if (errno == EINTR && tries < 100) { probe("join_interrupted_retry"); continue; } fail(tries ? "C20/join_lost_child_after_interrupt" : "C20/join_failed", "join() of the second process failed (errno %d)", errno); }
     simproc::Child* c2 = simproc::findChild(C.pid2);
     if (c2 && c2->execed) { if (code2 != 5) fail("C20/exit_code", "second process: join() returned %u, the child exited with 5", code2); NoPreempt np; if (C.p2Out != C.c2Out || C.p2Err != C.c2Err) fail("C20/output_lost", "second process: read %llu/%llu bytes, the child wrote %llu/%llu", (unsigned long long)C.p2Out, (unsigned long long)C.p2Err, (unsigned long long)C.c2Out, (unsigned long long)C.c2Err); }
     delete C.proc2; C.proc2 = 0;
